@@ -120,7 +120,7 @@ Lemma closed_state m f s rest st r t :
   let m' := upd_st (close_table m) StSteps in
   m_st m' = StSteps /\ at_feature_scenario m' (with_items f (FScen s' :: rest)) s' rest /\
   m_table m' = None /\ m_in_examples m' = false /\ m_line m' = m_line m /\ m_kw m' = m_kw m /\ m_tags m' = m_tags m /\
-  m_lang m' = m_lang m /\ m_last m' = m_last m.
+  m_lang m' = m_lang m /\ m_last m' = m_last m /\ m_lines m' = m_lines m.
 Proof.
   intros W HS T E s' m'. unfold m'. rewrite (close_table_eq m f s rest st r t W HS T E).
   destruct W as [A [B [C D]]]. unfold at_feature_scenario, closed_feature. cbn. repeat split; auto.
@@ -179,7 +179,7 @@ Qed.
 (* ------------------------------------------------------------------ the settled view of a state *)
 (* (f, s): the feature and its newest scenario as they will be once a pending step table is closed *)
 Definition settled (m : mstate) (f : pfeature) (s : pscen) (rest : list fitem) : Prop :=
-  m_in_examples m = false /\
+  m_in_examples m = false /\ m_lines m = [] /\
   ((m_table m = None /\ (m_st m = StSteps \/ m_st m = StScenario) /\ at_feature_scenario m f s rest) \/
    (exists f0 s0 st r t,
       m_st m = StTable /\ m_table m = Some t /\ at_feature_scenario m f0 s0 rest /\ sc_steps s0 = st :: r /\
@@ -206,50 +206,51 @@ Lemma feed_step_line_settled m f s rest line t k text :
              m_st m' = StSteps /\ m_table m' = None /\
              m_line m' = S (m_line m) /\ m_kw m' = m_kw m /\ m_tags m' = m_tags m /\ m_lang m' = m_lang m.
 Proof.
-  intros [IE [[T [ST W]] | (f0 & s0 & st0 & r & t0 & ST & T & W & HS & ES & EF)]] SL P st.
+  intros [IE [LN [[T [ST W]] | (f0 & s0 & st0 & r & t0 & ST & T & W & HS & ES & EF)]]] SL P st.
   - assert (X : exists m', feed (ROk m) line = ROk m' /\ m_st m' = StSteps /\
              at_feature_scenario m' (with_items f (FScen (with_steps s (st :: sc_steps s)) :: rest)) (with_steps s (st :: sc_steps s)) rest /\
              frame_eq m m' /\ m_line m' = S (m_line m) /\ m_last m' = Some t).
     { destruct ST as [ST|ST]; [apply feed_step_line|apply feed_first_step_line]; assumption. }
     destruct X as (m' & FD & ST' & W' & FR & L' & _).
-    destruct FR as (_ & _ & _ & G & K & _ & _ & _ & _ & _ & TG & _ & TB & IE').
+    destruct FR as (_ & _ & _ & G & K & _ & _ & _ & _ & _ & TG & LNS & TB & IE').
     exists m'. split; [exact FD|]. split.
-    + split; [congruence|]. left. split; [congruence|]. split; [left; exact ST'|exact W'].
+    + split; [congruence|]. split; [congruence|]. left. split; [congruence|]. split; [left; exact ST'|exact W'].
     + repeat split; congruence.
   - destruct SL as [ND NB NC SF NS0].
     rewrite (table_closes m f0 s0 rest st0 r t0 line ST W HS T IE NB NC P).
-    destruct (closed_state m f0 s0 rest st0 r t0 W HS T IE) as (ST1 & W1 & T1 & IE1 & L1 & K1 & TG1 & G1 & _).
+    destruct (closed_state m f0 s0 rest st0 r t0 W HS T IE) as (ST1 & W1 & T1 & IE1 & L1 & K1 & TG1 & G1 & _ & LN1).
     set (m1 := upd_st (close_table m) StSteps) in *.
     assert (SL1 : step_line (m_kw m1) (strip line) t k text).
     { rewrite K1. apply step_line_strip. split; assumption. }
     rewrite <- ES in W1. rewrite <- EF in W1.
     destruct (feed_step_line m1 f s rest (strip line) t k text ST1 W1 SL1) as (m' & FD & ST' & W' & FR & L' & _).
-    destruct FR as (_ & _ & _ & G & K & _ & _ & _ & _ & _ & TG & _ & TB & IE').
+    destruct FR as (_ & _ & _ & G & K & _ & _ & _ & _ & _ & TG & LNS & TB & IE').
     exists m'. split; [exact FD|]. rewrite L1 in *. split.
-    + split; [congruence|]. left. split; [congruence|]. split; [left; exact ST'|exact W'].
+    + split; [congruence|]. split; [congruence|]. left. split; [congruence|]. split; [left; exact ST'|exact W'].
     + repeat split; congruence.
 Qed.
 
 (* ------------------------------------------------------------------ a pending table and its rows *)
 Definition pending (m : mstate) (f0 : pfeature) (s0 : pscen) (rest : list fitem) (st : pstep) (r : list pstep) (t : ptable) : Prop :=
-  m_in_examples m = false /\ m_st m = StTable /\ m_table m = Some t /\ at_feature_scenario m f0 s0 rest /\ sc_steps s0 = st :: r.
+  m_in_examples m = false /\ m_st m = StTable /\ m_table m = Some t /\ at_feature_scenario m f0 s0 rest /\ sc_steps s0 = st :: r /\
+  m_lines m = [].
 
 Lemma pending_settled m f0 s0 rest st r t :
   pending m f0 s0 rest st r t ->
   settled m (closed_feature f0 s0 rest st r t) (with_steps s0 (with_table st (table_rows_in_order t) :: r)) rest.
 Proof.
-  intros (IE & ST & T & W & HS). split; [exact IE|]. right. exists f0, s0, st, r, t.
+  intros (IE & ST & T & W & HS & LN). split; [exact IE|]. split; [exact LN|]. right. exists f0, s0, st, r, t.
   split; [exact ST|]. split; [exact T|]. split; [exact W|]. split; [exact HS|]. split; reflexivity.
 Qed.
 
 Lemma feed_heading m f s rest st r line :
-  m_st m = StSteps -> m_table m = None -> m_in_examples m = false -> at_feature_scenario m f s rest -> sc_steps s = st :: r ->
+  m_st m = StSteps -> m_table m = None -> m_in_examples m = false -> m_lines m = [] -> at_feature_scenario m f s rest -> sc_steps s = st :: r ->
   row_line (m_kw m) line ->
   exists m', feed (ROk m) line = ROk m' /\
              pending m' f s rest st r (mkPTable (row_cells (strip line)) [] (S (m_line m))) /\
              m_line m' = S (m_line m) /\ m_kw m' = m_kw m /\ m_tags m' = m_tags m /\ m_lang m' = m_lang m.
 Proof.
-  intros ST T IE W HS RL. eexists. split; [apply (feed_heading_row m f s rest st r line ST W HS T RL)|].
+  intros ST T IE LN W HS RL. eexists. split; [apply (feed_heading_row m f s rest st r line ST W HS T RL)|].
   destruct W as [A [B [C D]]]. unfold pending, at_feature_scenario. cbn. repeat split; auto.
 Qed.
 
@@ -259,7 +260,7 @@ Lemma feed_body m f s rest st r t line :
              pending m' f s rest st r (mkPTable (pt_head t) ((row_cells (strip line), S (m_line m)) :: pt_rows t) (pt_line t)) /\
              m_line m' = S (m_line m) /\ m_kw m' = m_kw m /\ m_tags m' = m_tags m /\ m_lang m' = m_lang m.
 Proof.
-  intros (IE & ST & T & W & HS) [ND NB NC P _ _ _ _ _ _] LEN.
+  intros (IE & ST & T & W & HS & LN) [ND NB NC P _ _ _ _ _ _] LEN.
   eexists. split; [apply (feed_body_row m t line ST T NB NC P LEN)|].
   destruct W as [A [B [C D]]]. unfold pending, at_feature_scenario. cbn. rewrite IE. repeat split; auto.
 Qed.
@@ -331,10 +332,10 @@ Proof.
   destruct rows as [|h body].
   - exists m1. cbn [fold_left table_of length]. rewrite Nat.add_0_r. split; [reflexivity|]. split; [exact SE1|]. repeat split; assumption.
   - inversion RS as [|? ? [RLh _] RB]. subst. cbn [hd] in RB.
-    destruct SE1 as [IE1 [[_ [_ W1]] | (f0 & s0 & st0 & r0 & t0 & STx & _)]]; [|congruence].
+    destruct SE1 as [IE1 [LN1 [[_ [_ W1]] | (f0 & s0 & st0 & r0 & t0 & STx & _)]]]; [|congruence].
     set (st1 := mkPStep (rstrip k) t text (S (m_line m)) None None) in *.
     assert (RLh1 : row_line (m_kw m1) h) by (now rewrite K1).
-    destruct (feed_heading m1 _ _ rest st1 (sc_steps s) h ST1 T1 IE1 W1 eq_refl RLh1) as (m2 & FD2 & PD2 & L2 & K2 & TG2 & G2).
+    destruct (feed_heading m1 _ _ rest st1 (sc_steps s) h ST1 T1 IE1 LN1 W1 eq_refl RLh1) as (m2 & FD2 & PD2 & L2 & K2 & TG2 & G2).
     assert (RB2 : Forall (fun l => row_line (m_kw m2) l /\
                 length (row_cells (strip l)) = length (pt_head (mkPTable (row_cells (strip h)) [] (S (m_line m1))))) body)
       by (rewrite K2, K1; exact RB).
@@ -348,7 +349,7 @@ Qed.
 
 Lemma settled_items m f s rest : settled m f s rest -> f_items f = FScen s :: rest.
 Proof.
-  intros [_ [[_ [_ W]] | (f0 & s0 & st & r & t & _ & _ & _ & _ & _ & ->)]]; [apply W|reflexivity].
+  intros [_ [_ [[_ [_ W]] | (f0 & s0 & st & r & t & _ & _ & _ & _ & _ & ->)]]]; [apply W|reflexivity].
 Qed.
 
 Lemma with_same f s rest : f_items f = FScen s :: rest -> with_items f (FScen (with_steps s (sc_steps s)) :: rest) = f.
@@ -381,17 +382,17 @@ Qed.
 
 (* ------------------------------------------------------------------ tag lines and scenario lines after a table *)
 Definition body (m : mstate) (f : pfeature) : Prop :=
-  m_in_examples m = false /\
+  m_in_examples m = false /\ m_lines m = [] /\
   ((m_table m = None /\ in_feature_body m /\ m_cont m = CFeat /\ m_feat m = Some f) \/
    (exists f0 s0 rest st r t, pending m f0 s0 rest st r t /\ f = closed_feature f0 s0 rest st r t)).
 
 Lemma settled_body m f s rest : settled m f s rest -> body m f.
 Proof.
-  intros [IE [[T [ST W]] | (f0 & s0 & st & r & t & ST & T & W & HS & ES & EF)]]; split; try exact IE.
+  intros [IE [LN [[T [ST W]] | (f0 & s0 & st & r & t & ST & T & W & HS & ES & EF)]]]; split; try exact IE; split; try exact LN.
   - left. destruct W as [A [B [C D]]]. repeat split; auto.
     destruct ST as [ST|ST]; [right; left; exact ST|right; right; left; exact ST].
   - right. exists f0, s0, rest, st, r, t.
-    split; [split; [exact IE|]; split; [exact ST|]; split; [exact T|]; split; [exact W|exact HS]|]. rewrite EF, ES. reflexivity.
+    split; [split; [exact IE|]; split; [exact ST|]; split; [exact T|]; split; [exact W|]; split; [exact HS|exact LN]|]. rewrite EF, ES. reflexivity.
 Qed.
 
 Lemma starts_at_not_pipe s : starts_at s = true -> starts_pipe s = false.
@@ -408,22 +409,22 @@ Lemma feed_tag_line_body m f line names :
              m_line m' = S (m_line m) /\ m_kw m' = m_kw m /\
              m_tags m' = m_tags m ++ map (fun n => (n, S (m_line m))) names.
 Proof.
-  intros [IE [[T [ST [C F]]] | (f0 & s0 & rest & st & r & t & PD & EF)]] TL.
-  - destruct (feed_tag_line m f line names C F ST TL) as (m' & FD & ST' & C' & F' & L' & K' & TG' & TB' & IE').
+  intros [IE [LN [[T [ST [C F]]] | (f0 & s0 & rest & st & r & t & PD & EF)]]] TL.
+  - destruct (feed_tag_line m f line names C F ST TL) as (m' & FD & ST' & C' & F' & L' & K' & TG' & TB' & IE' & LN').
     exists m'. split; [exact FD|]. split.
-    + split; [congruence|]. left. repeat split; try congruence. right; right; right; exact ST'.
+    + split; [congruence|]. split; [congruence|]. left. repeat split; try congruence. right; right; right; exact ST'.
     + repeat split; congruence.
-  - destruct PD as (_ & ST & T & W & HS). pose proof TL as [ND NB NC AT NS TG].
+  - destruct PD as (_ & ST & T & W & HS & _). pose proof TL as [ND NB NC AT NS TG].
     rewrite (table_closes m f0 s0 rest st r t line ST W HS T IE NB NC (starts_at_not_pipe _ AT)).
-    destruct (closed_state m f0 s0 rest st r t W HS T IE) as (ST1 & W1 & T1 & IE1 & L1 & K1 & TG1 & G1 & _).
+    destruct (closed_state m f0 s0 rest st r t W HS T IE) as (ST1 & W1 & T1 & IE1 & L1 & K1 & TG1 & G1 & _ & LN1).
     set (m1 := upd_st (close_table m) StSteps) in *.
     assert (TL1 : tag_line (m_kw m1) (strip line) names) by (rewrite K1; now apply tag_line_strip).
     destruct W1 as [A1 [B1 [C1 D1]]].
     assert (ST1' : in_feature_body m1) by (right; left; exact ST1).
-    destruct (feed_tag_line m1 _ (strip line) names B1 C1 ST1' TL1) as (m' & FD & ST' & C' & F' & L' & K' & TG' & TB' & IE').
+    destruct (feed_tag_line m1 _ (strip line) names B1 C1 ST1' TL1) as (m' & FD & ST' & C' & F' & L' & K' & TG' & TB' & IE' & LN').
     rewrite L1, TG1 in TG'. rewrite L1 in L'.
     exists m'. split; [exact FD|]. split.
-    + split; [congruence|]. left. repeat split; try congruence.
+    + split; [congruence|]. split; [congruence|]. left. repeat split; try congruence.
       * right; right; right; exact ST'.
       * rewrite F', EF. reflexivity.
     + repeat split; congruence.
@@ -455,21 +456,21 @@ Lemma feed_scenario_line_body m f line alias name :
              settled m' (with_items f (FScen (new_scenario m alias name) :: f_items f)) (new_scenario m alias name) (f_items f) /\
              m_line m' = S (m_line m) /\ m_kw m' = m_kw m /\ m_tags m' = [].
 Proof.
-  intros [IE [[T [ST [C F]]] | (f0 & s0 & rest & st & r & t & PD & EF)]] SL P.
-  - destruct (feed_scenario_line_anywhere m f line alias name C F ST SL) as (m' & FD & ST' & W' & L' & K' & TG' & G' & TB' & IE').
+  intros [IE [LN [[T [ST [C F]]] | (f0 & s0 & rest & st & r & t & PD & EF)]]] SL P.
+  - destruct (feed_scenario_line_anywhere m f line alias name C F ST SL) as (m' & FD & ST' & W' & L' & K' & TG' & G' & TB' & IE' & LN').
     exists m'. split; [exact FD|]. split.
-    + split; [congruence|]. left. split; [congruence|]. split; [right; exact ST'|exact W'].
+    + split; [congruence|]. split; [congruence|]. left. split; [congruence|]. split; [right; exact ST'|exact W'].
     + repeat split; congruence.
-  - destruct PD as (_ & ST & T & W & HS). pose proof SL as [ND NB NC NT NS NR SC].
+  - destruct PD as (_ & ST & T & W & HS & _). pose proof SL as [ND NB NC NT NS NR SC].
     rewrite (table_closes m f0 s0 rest st r t line ST W HS T IE NB NC P).
-    destruct (closed_state m f0 s0 rest st r t W HS T IE) as (ST1 & W1 & T1 & IE1 & L1 & K1 & TG1 & G1 & _).
+    destruct (closed_state m f0 s0 rest st r t W HS T IE) as (ST1 & W1 & T1 & IE1 & L1 & K1 & TG1 & G1 & _ & LN1).
     set (m1 := upd_st (close_table m) StSteps) in *.
     assert (SL1 : scenario_line (m_kw m1) (strip line) alias name) by (rewrite K1; now apply scenario_line_strip).
     destruct W1 as [A1 [B1 [C1 D1]]].
     assert (ST1' : in_feature_body m1) by (right; left; exact ST1).
-    destruct (feed_scenario_line_anywhere m1 _ (strip line) alias name B1 C1 ST1' SL1) as (m' & FD & ST' & W' & L' & K' & TG' & G' & TB' & IE').
+    destruct (feed_scenario_line_anywhere m1 _ (strip line) alias name B1 C1 ST1' SL1) as (m' & FD & ST' & W' & L' & K' & TG' & G' & TB' & IE' & LN').
     exists m'. split; [exact FD|]. split.
-    + split; [congruence|]. left. split; [congruence|]. split; [right; exact ST'|].
+    + split; [congruence|]. split; [congruence|]. left. split; [congruence|]. split; [right; exact ST'|].
       unfold new_scenario in *. rewrite L1, TG1 in W'. rewrite EF. exact W'.
     + repeat split; congruence.
 Qed.
@@ -540,15 +541,15 @@ Proof.
   set (m1 := upd_st (build_feature (upd_line m0 1) falias fname) StFeature) in *.
   set (f1 := mkPFeat falias fname 1 [] [] None [] code).
   assert (B1 : body m1 f1).
-  { split; [reflexivity|]. left. split; [reflexivity|]. split; [left; reflexivity|]. split; reflexivity. }
+  { split; [reflexivity|]. split; [reflexivity|]. left. split; [reflexivity|]. split; [left; reflexivity|]. split; reflexivity. }
   destruct (rich_scenarios_are_read scens m1 f1 B1 eq_refl OK) as (m' & f' & FD & B' & T' & K' & IT & HD).
   cbn [fold_left]. rewrite F0, FD. unfold finish_table. cbn [rbind].
   assert (FIN : fin_feature f' = mkPFeat falias fname 1 [] [] None (expected_rich scens 1) code).
   { unfold fin_feature. rewrite IT. cbn [f_items map rev app m_line m1 upd_st build_feature upd_tags upd_tree upd_line m0 init_state f1].
     unfold with_items in HD. cbn in HD. inversion HD as [[H1 H2 H3 H4 H5 H6 H7]]. rewrite H1, H2, H3, H4, H5, H6, H7. reflexivity. }
-  destruct B' as [IE [[TB [ST [C F]]] | (f0 & s0 & rest & st & r & t & PD & EF)]].
+  destruct B' as [IE [_ [[TB [ST [C F]]] | (f0 & s0 & rest & st & r & t & PD & EF)]]].
   - rewrite TB. eexists. split; [reflexivity|]. split; [exact TB|]. rewrite F. cbn [option_map]. now rewrite FIN.
-  - destruct PD as (_ & ST & TB & W & HS). rewrite TB.
+  - destruct PD as (_ & ST & TB & W & HS & _). rewrite TB.
     destruct (closed_state m' f0 s0 rest st r t W HS TB IE) as (_ & W1 & T1 & _).
     eexists. split; [reflexivity|]. split; [exact T1|].
     destruct W1 as [_ [_ [C1 _]]]. rewrite C1. cbn [option_map]. fold (closed_feature f0 s0 rest st r t). rewrite <- EF. now rewrite FIN.
